@@ -3,6 +3,7 @@ import Proofs.NNSpecLemmas
 import SynapModel.Ops
 import SynapModel.LayerArgs
 import Mathlib.Algebra.Order.Field.Basic
+import Proofs.SpecNN
 /-!
 # C06 — Forward results of nn ops / layers / losses match their documented definitions
 
@@ -201,5 +202,27 @@ theorem nll_spec (p y : NDArray K) (labels : List Nat) (h : nllForward p labels 
     rw [get_ofFn _ _ _ (by simp [validIdx, hi])]
     simp only [getI, List.getD_cons_zero]
   · cases h
+
+/-! ### 2-d convolution and pooling, softmax family, losses: acceptance, shape, entry formula
+
+Statements and proofs in `Proofs/SpecNN.lean` (specification theorems and their `sn_` helpers only), re-exported here:
+* `convOut_eq_some_iff`            `convOut L k s p d = some n ⇔ 0<k ∧ 0<s ∧ 0<d ∧ d(k−1)+1 ≤ L+2p ∧ n = (L+2p−d(k−1)−1)/s + 1`
+* `conv2d_accepts_iff`, `conv2d_is_cross_correlation`   `out[n,o,i,j] = b[o] + Σ_{c,a,b} w[o,c,a,b]·xpad[n,c,i·sH+a·dH, j·sW+b·dW]`
+* `pool2d_accepts_iff`, `avgpool2d_counts_padding`, `maxpool2d_padding_never_wins`
+* `softmax_accepts_iff`, `softmax_spec` (any axis; positive entries, every fibre sums to 1, equal to the unshifted formula), `log_softmax_spec`
+* `mse_spec`, `nll_accepts_iff`, `nll_forward_spec`, `cross_entropy_spec` (`out[n] = −(x[n,label] − log Σ_j exp x[n,j])`) -/
+alias convOut_eq_some_iff := Proofs.SpecNN.convOut_eq_some_iff
+alias conv2d_accepts_iff := Proofs.SpecNN.conv2d_accepts_iff
+alias conv2d_is_cross_correlation := Proofs.SpecNN.conv2d_is_cross_correlation
+alias pool2d_accepts_iff := Proofs.SpecNN.pool2d_accepts_iff
+alias avgpool2d_counts_padding := Proofs.SpecNN.avgpool2d_counts_padding
+alias maxpool2d_padding_never_wins := Proofs.SpecNN.maxpool2d_padding_never_wins
+alias softmax_accepts_iff := Proofs.SpecNN.softmax_accepts_iff
+alias softmax_spec := Proofs.SpecNN.softmax_spec
+alias log_softmax_spec := Proofs.SpecNN.log_softmax_spec
+alias mse_spec := Proofs.SpecNN.mse_spec
+alias nll_accepts_iff := Proofs.SpecNN.nll_accepts_iff
+alias nll_forward_spec := Proofs.SpecNN.nll_forward_spec
+alias cross_entropy_spec := Proofs.SpecNN.cross_entropy_spec
 
 end Props.C06
